@@ -141,11 +141,10 @@ def run(ctx):
             d = dominated_by_edges(rs, bb, e_ok) and dominated_by_edges(rs, bb, m_ok) and dominated_by_blocks(rs, bb, [sb])
             ctx.ob("R18.3", "ok-after-all-three", d, rs.loc(bb), "Ok(()) must be returned only after sigemptyset, pthread_sigmask and signal all succeeded")
             # the SIG_ERR outcome of signal() must not reach Ok
-            sw = rs.blocks[sb]["term"]["t"]
-            swt = rs.blocks[sw]["term"] if sw is not None else None
-            errv = [v for v, _ in swt["targets"]] if swt and swt["k"] == "switch" else []
             sigerr = (1 << prog.doc["pointer_bits"]) - 1
-            err_edge_ok = swt is not None and swt["k"] == "switch" and (sigerr in errv or -1 in errv) and bb not in rs.reachable(M.switch_target(swt, errv[0]))
+            is_sig = lambda t: sigerr if (t and t[0] == "call" and t[1] == "libc::signal") else None
+            E = M.Explore(rs, assume_fn=is_sig)
+            err_edge_ok = bb not in E.blocks and sb in E.blocks
             ctx.ob("R18.3", "signal.error-checked", err_edge_ok, rs.loc(sb), "SIG_ERR from signal() must lead to Err, not Ok")
         ctx.ob("R18.3", "ok-return-exists", bool(okb), rs.loc(0), "reset_sigpipe has an Ok return")
 
